@@ -1327,6 +1327,373 @@ theorem C01_synsets_end_to_end (norm : String → String) (dr : Nat) (db db' : D
                         obtain ⟨a1, _, ⟨p, hp, hpp⟩, a4⟩ := hr
                         simp only [Function.comp, synsetData, docSynset, a1, hpp, hp, Option.getD_some, hres, a4]) hrows
 
+/-! ### end to end: `senses()` after `add` = the document's senses -/
+
+theorem Forall2.append {α β} {R : α → β → Prop} : ∀ {l1 : List α} {l1' : List β} {l2 : List α} {l2' : List β},
+    Forall2 R l1 l1' → Forall2 R l2 l2' → Forall2 R (l1 ++ l2) (l1' ++ l2') := by
+  intro l1 l1' l2 l2' h1 h2
+  induction h1 with
+  | nil => exact h2
+  | cons hh _ ih => exact Forall2.cons hh ih
+
+/-- `synsetRow` reads only the `synsets` table -/
+def synsetRowY (Y : List RSynset) (id : String) (lex : Nat) : Option Nat :=
+  (Y.find? (fun r => r.id == id && r.lex == lex)).map (·.rowid)
+
+/-- the sense row written for sense `s` of entry `e`, relative to fixed `entries` / `synsets` tables -/
+def SenseRowE (c : Ctx) (E : List REntry) (Y : List RSynset) (es : Entry × Sense) (r : RSense) : Prop :=
+  r.id = es.2.id ∧ r.lex = c.lexid ∧ entryRowE E es.1.id (c.lid es.1.id) = some r.entry ∧
+  synsetRowY Y es.2.synset (c.lid es.2.synset) = some r.synset
+
+theorem senseStep_tables (l : Lexicon) (c : Ctx) (dr : Nat) (e : Entry) (db db1 : Db) (si : Sense × Nat)
+    (h : senseStep l c dr e db si = .ok db1) : db1.entries = db.entries ∧ db1.synsets = db.synsets := by
+  obtain ⟨r, hdb1, _, _⟩ := senseStep_ok l c dr e db db1 si h
+  rw [hdb1]; exact ⟨rfl, rfl⟩
+
+/-- first loop of `_insert_senses` over all entries: one row per local sense, entry by entry, in
+document order; `entries` and `synsets` are not touched -/
+theorem insertSenses_rows (l : Lexicon) (c : Ctx) (dr : Nat) : ∀ (es : List Entry) (d d' : Db),
+    es.foldlM (fun db e => (localSenses e).zipIdx.foldlM (senseStep l c dr e) db) d = .ok d' →
+    d'.entries = d.entries ∧ d'.synsets = d.synsets ∧ ∃ rows, d'.senses = d.senses ++ rows ∧
+      Forall2 (SenseRowE c d.entries d.synsets) (es.flatMap (fun e => (localSenses e).map (fun s => (e, s)))) rows := by
+  intro es
+  induction es with
+  | nil =>
+    intro d d' h
+    simp only [List.foldlM_nil, pure, Except.pure, Except.ok.injEq] at h
+    subst h
+    exact ⟨rfl, rfl, [], by simp, Forall2.nil⟩
+  | cons e t ih =>
+    intro d d' h
+    simp only [List.foldlM_cons, bind, Except.bind] at h
+    cases h1 : (localSenses e).zipIdx.foldlM (senseStep l c dr e) d with
+    | error x => rw [h1] at h; simp at h
+    | ok d1 =>
+      rw [h1] at h
+      obtain ⟨rows1, hd1, hr1⟩ := C01_sense_rows l c dr e _ d d1 h1
+      have ht1 : d1.entries = d.entries ∧ d1.synsets = d.synsets := by rw [hd1]; exact ⟨rfl, rfl⟩
+      obtain ⟨he, hy, rows2, hd', hr2⟩ := ih d1 d' h
+      refine ⟨he.trans ht1.1, hy.trans ht1.2, rows1 ++ rows2, by rw [hd', hd1]; simp, ?_⟩
+      simp only [List.flatMap_cons]
+      apply Forall2.append
+      · -- rows of this entry
+        have : Forall2 (fun (si : Sense × Nat) r => SenseRowE c d.entries d.synsets (e, si.1) r) (localSenses e).zipIdx rows1 :=
+          Forall2.imp (fun si r hh => ⟨hh.1, hh.2.1, hh.2.2.2.2.2.2.1, hh.2.2.2.2.2.2.2⟩) hr1
+        -- re-index from zipIdx to the plain list
+        have key : ∀ (L : List Sense) (n : Nat) (R : List RSense),
+            Forall2 (fun (si : Sense × Nat) r => SenseRowE c d.entries d.synsets (e, si.1) r) (L.zipIdx n) R →
+            Forall2 (SenseRowE c d.entries d.synsets) (L.map (fun s => (e, s))) R := by
+          intro L
+          induction L with
+          | nil => intro n R hh; cases hh; exact Forall2.nil
+          | cons a t iht =>
+            intro n R hh
+            simp only [List.zipIdx_cons] at hh
+            cases hh with
+            | cons h0 hrest => exact Forall2.cons h0 (iht (n + 1) _ hrest)
+        exact key _ 0 _ this
+      · rw [ht1.1, ht1.2] at hr2; exact hr2
+
+theorem find_by_rowid_entries (E : List REntry) (h : (E.map (·.rowid)).Nodup) (x : REntry) (hx : x ∈ E) :
+    E.find? (fun y => y.rowid == x.rowid) = some x := by
+  induction E with
+  | nil => simp at hx
+  | cons a t ih =>
+    simp only [List.map_cons, List.nodup_cons] at h
+    rcases List.mem_cons.mp hx with rfl | hx
+    · simp
+    · have hne : a.rowid ≠ x.rowid := fun e => h.1 (List.mem_map.mpr ⟨x, hx, e.symm⟩)
+      simp only [List.find?_cons]
+      have : (a.rowid == x.rowid) = false := by simpa using hne
+      rw [this]; exact ih h.2 hx
+
+theorem find_by_rowid_synsets (Y : List RSynset) (h : (Y.map (·.rowid)).Nodup) (x : RSynset) (hx : x ∈ Y) :
+    Y.find? (fun y => y.rowid == x.rowid) = some x := by
+  induction Y with
+  | nil => simp at hx
+  | cons a t ih =>
+    simp only [List.map_cons, List.nodup_cons] at h
+    rcases List.mem_cons.mp hx with rfl | hx
+    · simp
+    · have hne : a.rowid ≠ x.rowid := fun e => h.1 (List.mem_map.mpr ⟨x, hx, e.symm⟩)
+      simp only [List.find?_cons]
+      have : (a.rowid == x.rowid) = false := by simpa using hne
+      rw [this]; exact ih h.2 hx
+
+/-- a sense row whose entry / synset rowids were obtained by looking up document ids decodes to a
+sense carrying exactly those ids, when rowids are unique -/
+theorem senseData_resolve (db : Db) (r : RSense) (eid sid : String) (le ly : Nat)
+    (he : entryRowE db.entries eid le = some r.entry) (hy : synsetRowY db.synsets sid ly = some r.synset)
+    (hnE : (db.entries.map (·.rowid)).Nodup) (hnY : (db.synsets.map (·.rowid)).Nodup) :
+    senseData db r = some ⟨r.id, eid, sid, r.lex, r.rowid⟩ := by
+  unfold entryRowE at he
+  unfold synsetRowY at hy
+  cases h1 : db.entries.find? (fun x => x.id == eid && x.lex == le) with
+  | none => rw [h1] at he; simp at he
+  | some x =>
+    rw [h1] at he
+    cases h2 : db.synsets.find? (fun x => x.id == sid && x.lex == ly) with
+    | none => rw [h2] at hy; simp at hy
+    | some y =>
+      rw [h2] at hy
+      simp only [Option.map_some, Option.some.injEq] at he hy
+      have hxm := List.mem_of_find?_eq_some h1
+      have hym := List.mem_of_find?_eq_some h2
+      have hxi : x.id = eid := by have := List.find?_some h1; simp at this; exact this.1
+      have hyi : y.id = sid := by have := List.find?_some h2; simp at this; exact this.1
+      unfold senseData
+      rw [← he, ← hy, find_by_rowid_entries db.entries hnE x hxm, find_by_rowid_synsets db.synsets hnY y hym]
+      simp [hxi, hyi]
+
+theorem entryStep_nodup (c : Ctx) (db db1 : Db) (e : Entry) (h : entryStep c db e = .ok db1)
+    (hn : (db.entries.map (·.rowid)).Nodup) : (db1.entries.map (·.rowid)).Nodup := by
+  obtain ⟨r, hdb1, _, hfresh, _⟩ := entryStep_ok c db db1 e h
+  rw [hdb1]
+  simp only [List.map_append, List.map_cons, List.map_nil]
+  rw [List.nodup_append]
+  refine ⟨hn, by simp, ?_⟩
+  intro a ha b hb
+  simp at hb; subst hb
+  intro e'; subst e'
+  exact hfresh ha
+
+theorem synsetStep_nodup (c : Ctx) (db db1 : Db) (ss : Synset) (h : synsetStep c db ss = .ok db1)
+    (hn : (db.synsets.map (·.rowid)).Nodup) : (db1.synsets.map (·.rowid)).Nodup := by
+  obtain ⟨r, hdb1, _, hfresh⟩ := synsetStep_ok c db db1 ss h
+  rw [hdb1]
+  simp only [List.map_append, List.map_cons, List.map_nil]
+  rw [List.nodup_append]
+  refine ⟨hn, by simp, ?_⟩
+  intro a ha b hb
+  simp at hb; subst hb
+  intro e'; subst e'
+  exact hfresh ha
+
+theorem insertLexicon_frame2 (db db' : Db) (l : Lexicon) (lexid extid : Nat)
+    (h : insertLexicon db l = .ok (db', lexid, extid)) :
+    db'.senses = db.senses ∧ db'.synsets = db.synsets ∧ db'.entries = db.entries := by
+  unfold insertLexicon at h
+  simp only [bind, Except.bind, pure, Except.pure] at h
+  split at h
+  · simp [throw, throwThe, MonadExcept.throw] at h
+  · split at h
+    · split at h
+      · simp at h
+      · simp only [Except.ok.injEq, Prod.mk.injEq] at h
+        obtain ⟨h1, _, _⟩ := h
+        subst h1
+        exact ⟨rfl, rfl, rfl⟩
+    · simp only [Except.ok.injEq, Prod.mk.injEq] at h
+      obtain ⟨h1, _, _⟩ := h
+      subst h1
+      exact ⟨rfl, rfl, rfl⟩
+
+theorem insertSynsets_nodupY (db db' : Db) (l : Lexicon) (c : Ctx) (h : insertSynsets db l c = .ok db')
+    (hn : (db.synsets.map (·.rowid)).Nodup) : (db'.synsets.map (·.rowid)).Nodup := by
+  unfold insertSynsets at h
+  cases hp : need "ili status" (lookupId db.ilistatuses "presupposed") with
+  | error e => simp [hp, bind, Except.bind] at h
+  | ok presup =>
+    simp only [hp, bind, Except.bind] at h
+    cases h1 : (localSynsets l).foldlM (presupStep presup) db with
+    | error e => simp [h1] at h
+    | ok db1 =>
+      simp only [h1] at h
+      cases h2 : (localSynsets l).foldlM (synsetStep c) db1 with
+      | error e => simp [h2] at h
+      | ok db2 =>
+        simp only [h2] at h
+        obtain ⟨hsyn, _⟩ := pili_fold_frame c _ db2 db' h
+        obtain ⟨⟨ex, hex⟩, _⟩ := C01_presupposed_ilis presup _ db db1 h1
+        have h1s : db1.synsets = db.synsets := by rw [hex]
+        rw [hsyn]
+        have : (db1.synsets.map (·.rowid)).Nodup → (db2.synsets.map (·.rowid)).Nodup := by
+          refine foldlM_ok_induct (synsetStep c) (fun _ b b' => (b.synsets.map (·.rowid)).Nodup → (b'.synsets.map (·.rowid)).Nodup)
+            ?_ ?_ _ db1 db2 h2
+          · intro b hb; exact hb
+          · intro a t b b1 b' hf _ ih hb
+            exact ih (synsetStep_nodup c b b1 a hf hb)
+        exact this (by rw [h1s]; exact hn)
+
+theorem insertEntries_nodupE (db db' : Db) (l : Lexicon) (c : Ctx) (h : insertEntries db l c = .ok db')
+    (hn : (db.entries.map (·.rowid)).Nodup) : (db'.entries.map (·.rowid)).Nodup := by
+  unfold insertEntries at h
+  revert hn
+  refine foldlM_ok_induct (entryStep c) (fun _ b b' => (b.entries.map (·.rowid)).Nodup → (b'.entries.map (·.rowid)).Nodup)
+    ?_ ?_ _ db db' h
+  · intro b hb; exact hb
+  · intro a t b b1 b' hf _ ih hb
+    exact ih (entryStep_nodup c b b1 a hf hb)
+
+/-- **C01, senses slice, end to end**: after a successful `add` of a plain lexicon, `senses()` of the
+new lexicon reports exactly the document's (non-external) senses, entry by entry in document order,
+each with its own id, the id of the entry it was declared under and the id of the synset it
+references — on any store with unique entry / synset rowids whose sense rows point at existing
+lexicons; for documents of any size. -/
+theorem C01_senses_end_to_end (norm : String → String) (dr : Nat) (db db' : Db) (l : Lexicon)
+    (h : addLexicon norm dr db l = .ok db') (hext : l.ext = none)
+    (hfkS : ∀ o ∈ db.senses, o.lex ∈ db.lexicons.map (·.rowid))
+    (hnE : (db.entries.map (·.rowid)).Nodup) (hnY : (db.synsets.map (·.rowid)).Nodup) :
+    (findSenses db' none [] none [nextId (db.lexicons.map (·.rowid))] false true).map (fun s => (s.id, s.entryId, s.synsetId)) =
+      l.entries.flatMap (fun e => (localSenses e).map (fun s => (s.id, e.id, s.synset))) := by
+  unfold addLexicon at h
+  simp only [bind, Except.bind] at h
+  cases h0 : collectFrames l with
+  | error x => rw [h0] at h; simp at h
+  | ok sbs =>
+    rw [h0] at h
+    simp only at h
+    cases h1 : insertLexicon (updateLookups db l) l with
+    | error x => rw [h1] at h; simp at h
+    | ok t =>
+      obtain ⟨d1, lexid, extid⟩ := t
+      rw [h1] at h
+      simp only at h
+      obtain ⟨_, _, f3, f4⟩ := insertLexicon_frame _ _ _ _ _ h1
+      obtain ⟨g1, g2, g3⟩ := insertLexicon_frame2 _ _ _ _ _ h1
+      have hext' := f4 hext
+      subst hext'
+      generalize hc : ({ lexid := extid, extid := extid, extIds := externalIds l } : Ctx) = c at h
+      have hlex : c.lexid = extid := by rw [← hc]
+      have hlid : ∀ id, c.lid id = c.lexid := by
+        intro id; rw [← hc]; unfold Ctx.lid; simp
+      cases h2 : insertSynsets d1 l c with
+      | error x => rw [h2] at h; simp at h
+      | ok d2 =>
+        rw [h2] at h
+        simp only at h
+        cases h3 : insertEntries d2 l c with
+        | error x => rw [h3] at h; simp at h
+        | ok d3 =>
+          rw [h3] at h
+          simp only at h
+          cases h4 : insertForms d3 norm l c with
+          | error x => rw [h4] at h; simp at h
+          | ok d4 =>
+            rw [h4] at h
+            simp only at h
+            cases h5 : insertPronsTags d4 l c with
+            | error x => rw [h5] at h; simp at h
+            | ok d5 =>
+              rw [h5] at h
+              simp only at h
+              cases h6 : insertSenses d5 l c dr with
+              | error x => rw [h6] at h; simp at h
+              | ok d6 =>
+                rw [h6] at h
+                simp only at h
+                cases h7 : insertSbs d6 sbs c with
+                | error x => rw [h7] at h; simp at h
+                | ok d7 =>
+                  rw [h7] at h
+                  simp only at h
+                  cases h8 : insertRelations d7 l c with
+                  | error x => rw [h8] at h; simp at h
+                  | ok d8 =>
+                    rw [h8] at h
+                    simp only at h
+                    -- tables seen by `_insert_senses`
+                    have n2 := keepsNF_insertSynsets l c d1 d2 h2
+                    have n3 := keepsNF_insertEntries l c d2 d3 h3
+                    have n4 := keepsNF_insertForms norm l c d3 d4 h4
+                    have n5 := keepsNF_insertPronsTags l c d4 d5 h5
+                    have hs5 : d5.senses = db.senses := by rw [n5, n4, n3, n2, g1]; rfl
+                    have y3 := keepsYF_insertEntries l c d2 d3 h3
+                    have y4 := keepsYF_insertForms norm l c d3 d4 h4
+                    have y5 := keepsYF_insertPronsTags l c d4 d5 h5
+                    have e2 := keepsF_insertSynsets l c d1 d2 h2
+                    have e4 : d4.entries = d3.entries := insertForms_entries norm l c d3 d4 h4
+                    have e5 := keepsF_insertPronsTags l c d4 d5 h5
+                    have hnY2 : (d2.synsets.map (·.rowid)).Nodup := insertSynsets_nodupY d1 d2 l c h2 (by rw [g2]; exact hnY)
+                    have hnE3 : (d3.entries.map (·.rowid)).Nodup := insertEntries_nodupE d2 d3 l c h3 (by rw [e2.1, g3]; exact hnE)
+                    have hY5 : d5.synsets = d2.synsets := by rw [y5.1, y4.1, y3.1]
+                    have hE5 : d5.entries = d3.entries := by rw [e5.1, e4]
+                    -- `_insert_senses`
+                    unfold insertSenses at h6
+                    simp only [bind, Except.bind] at h6
+                    cases h61 : l.entries.foldlM (fun db e => (localSenses e).zipIdx.foldlM (senseStep l c dr e) db) d5 with
+                    | error x => rw [h61] at h6; simp at h6
+                    | ok x1 =>
+                      rw [h61] at h6
+                      simp only at h6
+                      obtain ⟨xe, xy, rows, hx1, hrows⟩ := insertSenses_rows l c dr l.entries d5 x1 h61
+                      have k6 := keepsSF_adjCounts l c x1 d6 h6
+                      have k7 := keepsSF_insertSbs sbs c d6 d7 h7
+                      have k8 := keepsSF_insertRelations l c d7 d8 h8
+                      have k9 := keepsSF_insertDefsExamples l c d8 db' h
+                      have hSf : db'.senses = db.senses ++ rows := by rw [k9.1, k8.1, k7.1, k6.1, hx1, hs5]
+                      have hEf : db'.entries = d5.entries := by rw [k9.2.1, k8.2.1, k7.2.1, k6.2.1, xe]
+                      have hYf : db'.synsets = d5.synsets := by rw [k9.2.2, k8.2.2, k7.2.2, k6.2.2, xy]
+                      have f3' : extid = nextId (db.lexicons.map (·.rowid)) := f3
+                      rw [← f3', ← hlex]
+                      unfold findSenses
+                      have hfilter : db'.senses.filter (fun s =>
+                          (match (none : Option String) with | some i => if i == "" then true else s.id == i | none => true) &&
+                          (([] : List String).isEmpty || formMatch db' [] false true s.entry) &&
+                          (match (none : Option String) with
+                            | some p => if p == "" then true else (match db'.entries.find? (fun e => e.rowid == s.entry) with | some e => e.pos == p | none => false)
+                            | none => true) &&
+                          inLexOrAll [c.lexid] s.lex) = rows := by
+                        rw [hSf, List.filter_append]
+                        have e1 : db.senses.filter (fun s =>
+                            (match (none : Option String) with | some i => if i == "" then true else s.id == i | none => true) &&
+                            (([] : List String).isEmpty || formMatch db' [] false true s.entry) &&
+                            (match (none : Option String) with
+                              | some p => if p == "" then true else (match db'.entries.find? (fun e => e.rowid == s.entry) with | some e => e.pos == p | none => false)
+                              | none => true) &&
+                            inLexOrAll [c.lexid] s.lex) = [] := by
+                          rw [List.filter_eq_nil_iff]
+                          intro o ho
+                          have hne : o.lex ≠ c.lexid := by
+                            intro e
+                            have := hfkS o ho
+                            rw [e, hlex, f3'] at this
+                            exact nextId_fresh _ this
+                          simp [inLexOrAll, hne]
+                        have e2' : rows.filter (fun s =>
+                            (match (none : Option String) with | some i => if i == "" then true else s.id == i | none => true) &&
+                            (([] : List String).isEmpty || formMatch db' [] false true s.entry) &&
+                            (match (none : Option String) with
+                              | some p => if p == "" then true else (match db'.entries.find? (fun e => e.rowid == s.entry) with | some e => e.pos == p | none => false)
+                              | none => true) &&
+                            inLexOrAll [c.lexid] s.lex) = rows := by
+                          rw [List.filter_eq_self]
+                          intro r hr
+                          have : r.lex = c.lexid := by
+                            have key : ∀ {L : List (Entry × Sense)} {R : List RSense}, Forall2 (SenseRowE c d5.entries d5.synsets) L R → ∀ r ∈ R, r.lex = c.lexid := by
+                              intro L R hh
+                              induction hh with
+                              | nil => intro r hr; simp at hr
+                              | cons hd _ ih =>
+                                intro r hr
+                                rcases List.mem_cons.mp hr with rfl | hr
+                                · exact hd.2.1
+                                · exact ih r hr
+                            exact key hrows r hr
+                          simp [inLexOrAll, this]
+                        rw [e1, e2', List.nil_append]
+                      rw [hfilter]
+                      have hnEf : (db'.entries.map (·.rowid)).Nodup := by rw [hEf, hE5]; exact hnE3
+                      have hnYf : (db'.synsets.map (·.rowid)).Nodup := by rw [hYf, hY5]; exact hnY2
+                      have hdec : ∀ (es : Entry × Sense) (r : RSense), SenseRowE c d5.entries d5.synsets es r →
+                          senseData db' r = some ⟨es.2.id, es.1.id, es.2.synset, r.lex, r.rowid⟩ := by
+                        intro es r ⟨a1, _, a3, a4⟩
+                        rw [← a1]
+                        exact senseData_resolve db' r es.1.id es.2.synset _ _ (by rw [hEf]; exact a3) (by rw [hYf]; exact a4) hnEf hnYf
+                      have hfm : ∀ {L : List (Entry × Sense)} {R : List RSense}, Forall2 (SenseRowE c d5.entries d5.synsets) L R →
+                          (R.filterMap (senseData db')).map (fun s => (s.id, s.entryId, s.synsetId)) = L.map (fun es => (es.2.id, es.1.id, es.2.synset)) := by
+                        intro L R hh
+                        induction hh with
+                        | nil => rfl
+                        | cons hd _ ih =>
+                          rw [List.filterMap_cons, hdec _ _ hd]
+                          simp only [List.map_cons, ih]
+                      rw [hfm hrows, List.map_flatMap]
+                      congr 1
+                      funext e
+                      rw [List.map_map]
+                      rfl
+
 /-- what `synsets()` decodes: every reported synset is a synset row of a selected lexicon with that
 row's id and part of speech, and its ILI is the id of the ILI row the synset row links to -/
 theorem C01_synsets_decode (db : Db) (lexids : List Nat) (y : SynsetData)
